@@ -343,11 +343,12 @@ impl Model for M {
                 let list = set.iter().map(|c| s.ranges[*c]).collect();
                 s.table.set_claims(peer_addr(*p), list);
                 // a re-announcement that drops a claim voids decisions cached from the peer (the statement: dropped ones
-                // disappear at once together with decisions cached from them) - conservatively: from any claim of that peer
+                // disappear at once together with decisions cached from them) - conservatively: from any claim of that peer;
+                // a decision LEARNED from the peer's traffic comes from no claim and stays allowed while the peer lives
                 if let Some((old, _)) = &s.announced[*p] {
                     if old.iter().any(|c| !set.contains(c)) {
                         s.cleared[*p] = s.now;
-                        s.decisions.retain(|d| d.peer != *p || set.contains(&d.claim));
+                        s.decisions.retain(|d| d.peer != *p || d.claim == LEARNED || set.contains(&d.claim));
                     }
                 }
                 s.announced[*p] = Some((set, s.now));
